@@ -13,6 +13,7 @@ use serde_json::json;
 mod ctx;
 mod gen;
 mod model;
+mod oldfile;
 mod props;
 mod rng;
 mod session;
